@@ -512,6 +512,13 @@ func (x *Exec) note(s string) {
 
 func (x *Exec) valuesEqual(fr *Frame, st *State, a, b Value, pos token.Pos) *Term {
 	m := x.m()
+	// a bare reference (payload(i), arr(s)) compared with a pointer value
+	if a.K == KScalar && b.K == KPtr && a.X != nil && b.Loc != nil && len(b.Loc.Elems) == 0 && a.X.S == b.Loc.Root.S {
+		return Eq(a.X, b.Loc.Root)
+	}
+	if b.K == KScalar && a.K == KPtr && b.X != nil && a.Loc != nil && len(a.Loc.Elems) == 0 && b.X.S == a.Loc.Root.S {
+		return Eq(b.X, a.Loc.Root)
+	}
 	switch a.K {
 	case KScalar, KArray, KMap:
 		if a.X.S != b.X.S {
